@@ -90,8 +90,10 @@ def unit_sweep():
                   (['P', "(2, 3)"], ['Q', "1"]), (['P', "(2, slice(None))"], ['Q', "(1, 1)"]),
                   (['P', "(slice(None), slice(2, 3))"], 'Q')]
     # base quantities per unit: zero, tiny (a few storage resolutions), part, and for A->B larger parts
-    sizes = {'L': [0.0, 2e-9, 13e-6, 52e-6], 'g': [0.0, 3e-9, 7e-6, 21e-6, 5e-3], 'mol': [0.0, 4e-12, 9e-6, 300e-6],
-             'U': [0.0, 1e-7, 0.002, 0.004]}
+    # (2.54 nL, 1.23456 uL, 0.125 nmol, 1.2345 ng: not multiples of 10^-10 base units - a request is applied as written, not
+    # rounded to a tenth of a nanolitre)
+    sizes = {'L': [0.0, 2e-9, 2.54e-9, 1.23456e-6, 13e-6, 52e-6], 'g': [0.0, 3e-9, 1.2345e-9, 7e-6, 21e-6, 5e-3],
+             'mol': [0.0, 4e-12, 1.25e-10, 9e-6, 300e-6], 'U': [0.0, 1e-7, 0.002, 0.004]}
     acts = []
     for (s, d) in pair_forms:
         for base, vals in sizes.items():
@@ -148,11 +150,12 @@ W_TRACE = {
     'A': ('container', 'inf L', [('water', '1 mL'), ('dmso', '0.5 mL'), ('nacl', '8e-15 mol'), ('lipase', '3e-8 U')]),
     'E': ('container', '20 mL', []),
     'R': ('plate', '500 uL', 1, 2),
+    'Z': ('container', 'inf L', [('lipase', '5 U')]),          # nothing but enzyme: wells filled from it hold enzyme only
 }
 
 
 def trace_alphabet():
-    a = []
+    a = [T('Z', 'R', '0.4 U'), T('R', 'E', '0.1 U'), T('R', 'E', '0.05 uL'), T(['R', "(1, 2)"], 'E', '2 ug'), T('Z', 'E', '1 U')]
     for s, d in (('A', 'E'), ('E', 'A'), ('A', 'R'), (['R', "(1, 1)"], 'E'), (['R', "(1, 1)"], ['R', "(1, 2)"])):
         for q in ('0.3 mL', '0.2 g', '20 uL', '3 mmol'):
             a.append(T(s, d, q))
